@@ -1,0 +1,65 @@
+//go:build verif
+
+// Contracts for package postprocessor (HTTP scenario postprocessors), checked by /verif/govc. Comment-only: no code.
+// Whatever the target answers, a postprocessor returns variables or an error: it never faults.
+package postprocessor
+
+// The substring modifier, for every header value and every configured bounds: no fault, and the configured bounds are not changed.
+//@ func (p *VarHeaderPostprocessor) substr#lit0
+//@ props C19 C11
+//@ modifies nothing
+//@ ensures [a-piece-of-the-value] len(result) <= len(in)
+// (modifies nothing also covers the captured bounds: a closure shared by all shots must not assign what it captures)
+
+//@ func (p *VarHeaderPostprocessor) substr
+//@ props C19 C13
+//@ modifies nothing
+//@ ensures [needs-one-or-two-integer-arguments] imp(len(args) == 0 || len(args) > 2, result1 != nil) && iff(result1 == nil, result0 != nil)
+
+//@ func (p *VarHeaderPostprocessor) parseModifier
+//@ props C19 C13
+//@ nilsafe
+//@ ensures [a-modifier-or-an-error] iff(result1 == nil, result0 != nil)
+
+//@ func (p *VarHeaderPostprocessor) parseValue
+//@ props C19 C13
+//@ nilsafe
+//@ loop 0 invariant modifier != nil
+//@ ensures [a-modifier-or-an-error] imp(err == nil, modifier != nil)
+
+//@ func (p *VarHeaderPostprocessor) Process
+//@ props C19 C15
+//@ nilsafe
+//@ requires resp != nil
+//@ loop 0 invariant result != nil && imp(calls(p.parseValue) > 0, result_of(p.parseValue, 2) == nil)
+//@ at call resp.Header.Get assert [the-configured-header] arg(a0) == result_of(p.parseValue, 0)
+//@ ensures [bad-modifier-is-an-error] imp(calls(p.parseValue) > 0 && result_of(p.parseValue, 2) != nil, result1 != nil)
+
+//@ func (p *VarXpathPostprocessor) getValuesFromDOM
+//@ props C19
+//@ nilsafe
+//@ ensures [non-node-result-is-an-error] imp(result_of(xpath.Compile, 1) != nil, result1 != nil)
+
+//@ func (p *VarXpathPostprocessor) Process
+//@ props C19 C15
+//@ nilsafe
+//@ loop 0 invariant result != nil && imp(calls(p.getValuesFromDOM) > 0, result_of(p.getValuesFromDOM, 1) == nil)
+//@ ensures [unparsable-body-is-an-error] imp(calls(html.Parse) == 1 && result_of(html.Parse, 1) != nil, result1 == result_of(html.Parse, 1))
+//@ ensures [bad-query-is-an-error] imp(calls(p.getValuesFromDOM) > 0 && result_of(p.getValuesFromDOM, 1) != nil, result1 != nil)
+
+//@ func (p *VarJsonpathPostprocessor) Process
+//@ props C19 C15
+//@ nilsafe
+//@ loop 0 invariant result != nil
+//@ ensures [unparsable-body-is-an-error] imp(calls(decoder.Decode) == 1 && result_of(decoder.Decode, 0) != nil, result1 != nil && result0 == nil)
+
+// A response that does not meet the expectation fails the step with an error (never a fault).
+//@ func (a AssertResponse) Process
+//@ props C19 C15
+//@ nilsafe
+//@ requires resp != nil
+//@ ensures [no-variables] result0 == nil
+//@ ensures [wrong-status-fails-the-step] imp(result1 == nil, a.StatusCode == 0 || a.StatusCode == resp.StatusCode)
+//@ ensures [unreadable-body-fails-the-step] imp(calls(io.ReadAll) == 1 && result_of(io.ReadAll, 1) != nil, result1 != nil)
+//@ ensures [wrong-size-fails-the-step] imp(result1 == nil && a.Size != nil && (a.Size.Op == "eq" || a.Size.Op == "="), a.Size.Val == len(b))
+//@ ensures [unknown-size-operator-is-an-error] imp(a.Size != nil && a.Size.Op != "eq" && a.Size.Op != "=" && a.Size.Op != "lt" && a.Size.Op != "<" && a.Size.Op != "gt" && a.Size.Op != ">", result1 != nil)
